@@ -1,9 +1,10 @@
-\* block level: one contract, one slot, values {0,1,2}, 3 transactions, <= 4 blocks, <= 2 diff entries, <= 1 tx
+\* block level: one contract, one slot, values {0,1}, 3 transactions, <= 4 blocks, <= 2 diff entries, <= 1 tx
+\* measured: 309 277 distinct states, ~3-4 min on 4 workers
 CONSTANTS
   Users = {"c1"}
   Sys = {}
   Slots = {"s1"}
-  MaxV = 2
+  MaxV = 1
   Cairo0 = {"k0"}
   Sierra = {}
   TxIds = {"t1", "t2", "l1a"}
